@@ -20,7 +20,7 @@ RULE = (
     "every body is held open and released one at a time only when the simulator is quiescent, so at each decision the framework has admitted "
     "as many bodies as it ever will (release order seeded, or swept systematically for small cases); also random-delay and ready-shuffle modes. "
     "Non-trivial = the limit was saturated (in_flight == k at some body entry); distinct = digest of (program shape, k, release order)."
-    ' Also: async generator nodes and interrupt handlers (both are node functions), and a SEQUENCE variant: an earlier top-level call with another limit, made from the same task, fails / returns FAILED / pauses / completes / is cancelled by a caller-side timeout (asyncio.wait_for on the virtual clock, bodies in flight) before the measured call. Survivable failures: a node function or interrupt handler raises inside items of a continuing map (runner.map or map_over node, error_handling=continue); the rest of the call must still get its permits. Exact step budget: max_iterations set to what the unlimited run needs (a concurrency limit must not change the number of supersteps).'
+    ' Also: async generator nodes and interrupt handlers (both are node functions), and a SEQUENCE variant: an earlier top-level call with another limit, made from the same task, fails / returns FAILED / pauses / completes / is cancelled by a caller-side timeout (asyncio.wait_for on the virtual clock, bodies in flight) / is a map over nothing / is a rejected map, before the measured call. Survivable failures: a node function or interrupt handler raises inside items of a continuing map (runner.map or map_over node, error_handling=continue); the rest of the call must still get its permits. Exact step budget: max_iterations set to what the unlimited run needs (a concurrency limit must not change the number of supersteps).'
 )
 ASSUMPTIONS = ["bodies of function nodes are the unit of 'executing'; gate functions are synchronous and cannot be held open"]
 
@@ -132,7 +132,7 @@ def gen_case(rng: random.Random, tier: str) -> dict:
         "top_map_n": top_n,
         "tier": tier,
         # an earlier top-level call made from the SAME task with another limit, ending by failure / FAILED result / completion
-        "pre_run": rng.choice([None, None, {"k1": rng.choice([3, 4, 5]), "end": rng.choice(["raise", "continue", "ok", "pause", "cancel"]), "t": rng.choice([0.5, 1.5, 2.5, 3.5, 4.5])}]),
+        "pre_run": rng.choice([None, None, {"k1": rng.choice([3, 4, 5]), "end": rng.choice(["raise", "continue", "ok", "pause", "cancel", "empty_map", "bad_map"]), "t": rng.choice([0.5, 1.5, 2.5, 3.5, 4.5])}]),
     }
 
 
@@ -273,6 +273,7 @@ def _sequence(doc, g, values, op, kw, res, rts, viol) -> None:
     with patched(rt):
         graph, _c = build(g, rt, "async")
         pre_graph, _c2 = build({"name": "pre", "nodes": pre_nodes, "order": list(range(len(pre_nodes)))}, rt, "async")
+        pre_map, _c3 = build({"name": "prem", "nodes": [{"kind": "fn", "name": "pre_m", "params": [{"name": "pre_u"}, {"name": "pre_v"}], "outs": ["pre_mo"]}], "order": [0]}, rt, "async")
         runner = make_runner("async", rt)
         vals = values(graph) if callable(values) else dict(values)
         fn = getattr(runner, op)
@@ -293,6 +294,12 @@ def _sequence(doc, g, values, op, kw, res, rts, viol) -> None:
                         rt.probes["pre_run_cancelled"] = rt.probes.get("pre_run_cancelled", 0) + 1
                     finally:
                         rt.schedule = hold_sched
+                elif pre["end"] == "empty_map":
+                    # a map over nothing: returns [] without running anything
+                    await runner.map(pre_map, {"pre_u": [], "pre_v": 1}, map_over="pre_u", max_concurrency=k1)
+                elif pre["end"] == "bad_map":
+                    # a map the runner rejects (zip over lists of unequal length); the caller handles the error and goes on
+                    await runner.map(pre_map, {"pre_u": [1], "pre_v": [1, 2]}, map_over=["pre_u", "pre_v"], map_mode="zip", max_concurrency=k1)
                 else:
                     await runner.run(pre_graph, {}, max_concurrency=k1, error_handling="continue" if pre["end"] == "continue" else "raise")
             except Exception:  # noqa: BLE001 - the first call may fail; the second is what is measured
